@@ -13,7 +13,7 @@ func (rn *runner) startIndexWatch() {}
 func genC16(r *simcore.Rand, tier string) any {
 	p := &Plan{Check: "C16", K: genKnobs(r)}
 	p.K.Indexing = false
-	p.OrphanOK = r.Bool(0.25)
+	p.OrphanOK = r.Bool(0.6)
 	single := r.Bool(0.35)
 	nops := r.Range(8, 60)
 	if tier == "thorough" {
@@ -126,7 +126,7 @@ func genC17(r *simcore.Rand, tier string) any {
 func genC22(r *simcore.Rand, tier string) any {
 	p := &Plan{Check: "C22", K: genKnobs(r)}
 	p.K.Indexing = false
-	p.OrphanOK = r.Bool(0.15)
+	p.OrphanOK = r.Bool(0.6)
 	single := r.Bool(0.4)
 	nops := r.Range(8, 50)
 	if tier == "thorough" {
